@@ -830,6 +830,8 @@ def pure_self_methods(repo, relpath: str, clsname: str) -> Set[str]:
                     fn = q.dotted(c.func)
                     if fn in PURE_FUNCS or fn in IDENTITY_CALLS or fn in _BUILTINS or fn in ("any", "all", "sum", "map", "filter", "next", "iter", "ord", "chr", "round", "divmod", "format", "frozenset"):
                         continue
+                    if fn is not None and _pure_module_function(meths[name].module, fn):
+                        continue  # a side-effect-free function of the same module (a predicate moved out of the class)
                     pure.discard(name)
                     changed = True
                     break
@@ -878,3 +880,28 @@ def partial_states(states) -> Optional[str]:
         if env.get("@partial"):
             return env["@partial"]
     return None
+
+
+
+def _pure_module_function(mod, name: str, depth: int = 2) -> bool:
+    """A module-level function that only computes: no store to an attribute / subscript / global, no await/yield, and
+    only calls of pure builtins, text methods or other such functions."""
+    fi = mod.funcs.get(name)
+    if fi is None or "." in name or depth < 0 or isinstance(fi.node, ast.AsyncFunctionDef):
+        return False
+    for n in q.walk_body(fi.node):
+        if isinstance(n, (ast.Yield, ast.YieldFrom, ast.Await, ast.Global, ast.Nonlocal, ast.Delete)):
+            return False
+        if isinstance(n, (ast.Assign, ast.AugAssign, ast.AnnAssign)) and any(("." in p_) or p_.endswith("[]") for p_ in q.assigned_paths(n)):
+            return False
+        if isinstance(n, ast.Call):
+            if isinstance(n.func, ast.Attribute):
+                if n.func.attr in PURE_METHODS or n.func.attr in PURE_TEXT_METHODS:
+                    continue
+                return False
+            fn = q.dotted(n.func)
+            if fn in PURE_FUNCS or fn in IDENTITY_CALLS or fn in _BUILTINS or fn in ("any", "all", "sum", "next", "ord", "chr", "frozenset"):
+                continue
+            if fn is None or fn == name or not _pure_module_function(mod, fn, depth - 1):
+                return False
+    return True
